@@ -5,4 +5,6 @@ cd "$(dirname "$0")/harness"
 export CARGO_NET_OFFLINE=true CARGO_TARGET_DIR="$(cd .. && pwd)/target"
 cargo build --offline --workspace -q 2>&1 | grep -v '^warning' | tail -20 || true
 cargo build --offline --workspace -q
+# AddressSanitizer substrate (nightly): pre-build the engines that use it in the quick tier so the first check is fast
+RUSTFLAGS="-Zsanitizer=address" CARGO_TARGET_DIR="$(cd .. && pwd)/target_asan" cargo +nightly build --offline -q -p e_iter -p e_seq -p e_own --target x86_64-unknown-linux-gnu
 echo setup ok
